@@ -1,0 +1,55 @@
+//go:build verif
+
+package dawg
+
+import "bytes"
+
+// VerifNode is one row of the node table of a Dawg (verification hook; only built with -tags verif).
+type VerifNode struct {
+	ID       uint64
+	Final    bool
+	NumWords int
+	Labels   []byte
+	Targets  []uint64
+}
+
+// VerifNodeTable returns one row per node reachable from t, in order of first visit of a depth-first
+// traversal that follows the links in slice order (t itself first). Nodes are identified by pointer, not by
+// id, so two distinct reachable nodes that carry the same id produce two rows.
+func (t *Dawg) VerifNodeTable() []VerifNode {
+	var out []VerifNode
+	seen := map[*Dawg]bool{}
+	var visit func(d *Dawg)
+	visit = func(d *Dawg) {
+		if seen[d] {
+			return
+		}
+		seen[d] = true
+		row := VerifNode{ID: d.id, Final: d.final, NumWords: d.numWords}
+		row.Labels = append([]byte{}, d.linkLabels...)
+		for _, l := range d.links {
+			row.Targets = append(row.Targets, l.id)
+		}
+		out = append(out, row)
+		for _, l := range d.links {
+			visit(l)
+		}
+	}
+	visit(t)
+	return out
+}
+
+// VerifNumberOfNodes exposes the unexported numberOfNodes.
+func (t *Dawg) VerifNumberOfNodes() int {
+	return t.numberOfNodes()
+}
+
+// VerifEncodeUint64 exposes the unexported variable-length integer encoder (fresh 9-byte buffer, as GobEncode uses it).
+func VerifEncodeUint64(x uint64) []byte {
+	return append([]byte{}, encodeUint64(x, make([]byte, 9))...)
+}
+
+// VerifDecodeUint64 exposes the unexported variable-length integer decoder reading from the start of b.
+func VerifDecodeUint64(b []byte) (x uint64, width int, err error) {
+	return decodeUint64(bytes.NewReader(b), make([]byte, 9))
+}
